@@ -1145,7 +1145,7 @@ pub fn run_c18(ctx: &Ctx) -> i32 {
         evaluations: acc.get("samplers") + acc.get("restored_samples_compared"),
         distinct_nontrivial: acc.get("samplers"),
         exhaustive: true,
-        bounds: json!({"formats": ["serde_json (float_roundtrip)", "ciborium", "value tree with positional structs (harness)"], "G-small": "E<=3", "D": tier.pick("3,4", "1..6")}),
+        bounds: json!({"formats": ["serde_json (float_roundtrip)", "ciborium", "value tree with positional structs (harness)"], "G-small": "E<=3", "D": tier.pick("3,4", "1..6"), "sampling": "family + (D,L) grid + size ladder (to 10 / 13 edges, 8 loops); loop signatures x 200, -129, 70000, -2^33; ragged signature"}),
         assumptions: vec!["JSON cannot carry NaN/inf: samplers whose normalisation is non-finite (dod = 0) are round-tripped through CBOR only".into()],
         extra: Default::default(),
     };
